@@ -1,4 +1,4 @@
-\* BoundedPool with the repaired admission (FixF4): 3 producers x 2 Submit/SubmitWait, QueueSize 2, 2 workers, Close anywhere.
+\* BoundedPool as the code is (admission lock, FixF4): 3 producers x 2 Submit/SubmitWait, QueueSize 2, 2 workers, Close anywhere.
 SPECIFICATION Spec
 CONSTANTS
   NP = 3
